@@ -42,7 +42,7 @@ def sdl_for(p):
 %s
 scalar Tag%s
 enum E%s { ONE%s TWO }
-input I%s { a: Tag%s e: E }
+input I%s { a: Tag = "v"%s e: E }
 interface N%s { s: Tag tags: String }
 type O implements N%s { s: Tag tags: String e: E h(y: Tag%s): Tag }
 union U%s = O
@@ -291,6 +291,10 @@ def requests():
             out.append({"kind": "x-variable", "text": "query($x: I) { f(x: $x) }", "vars": {"x": {"a": "v"}}, "query_dirs": qd})
             out.append({"kind": "x-nested-variable", "text": "query($a: Tag) { f(x: {a: $a}) }", "vars": {"a": "v"}, "query_dirs": qd})
             out.append({"kind": "y-variable", "field": "f", "text": "query($y: Tag) { f(y: $y) }", "vars": {"y": "w"}, "query_dirs": qd})
+            # the input field is omitted and takes its SDL default: same stages as when it is written out, literal and variable alike
+            out.append({"kind": "x-literal", "text": "{ f(x: {}) }", "vars": None, "query_dirs": qd})
+            out.append({"kind": "x-variable", "text": "query($x: I) { f(x: $x) }", "vars": {"x": {}}, "query_dirs": qd})
+            out.append({"kind": "x-variable", "text": "query($x: I = {}) { f(x: $x) }", "vars": None, "query_dirs": qd})
             # the value comes from the SDL default / from a variable default: same stages, on every execution (each request runs twice)
             out.append({"kind": "x-default", "field": "d", "text": "{ d }", "vars": None, "query_dirs": qd})
             out.append({"kind": "x-literal", "field": "d", "text": '{ d(x: {a: "v"}) }', "vars": None, "query_dirs": qd})
